@@ -506,12 +506,12 @@ def build_system(world, tmp, faults=(), cls=GenericSystem, applied=None, definit
             if reader is None:
                 if path == "csv":
                     reader = CompoundDataReader(dimension_reader=CSVDimensionReader(dimension_files=dim_files),
-                                                parameter_reader=CSVParameterReader(parameter_files=prm_files, allow_missing_values=am, allow_extra_values=ae))
+                                                parameter_reader=CSVParameterReader(parameter_files=prm_files, **_only_set(am, ae, seed)))
                 else:
                     reader = CompoundDataReader(
                         dimension_reader=ExcelDimensionReader(dimension_files=dim_files, dimension_sheets=_reorder(dim_sheets, seed + 2)),
                         parameter_reader=ExcelParameterReader(parameter_files=prm_files, parameter_sheets=_reorder(prm_sheets, seed + 3),
-                                                              allow_missing_values=am, allow_extra_values=ae))
+                                                              **_only_set(am, ae, seed)))
                 if holder is not None:
                     holder["reader"] = reader
             return cls.from_data_reader(definition, reader), definition
@@ -521,6 +521,16 @@ def build_system(world, tmp, faults=(), cls=GenericSystem, applied=None, definit
     finally:
         if bad_path is not None:
             del pic.open
+
+
+def _only_set(am, ae, seed):
+    """the reader switches as a caller writes them: one that is off is usually not mentioned"""
+    kw = {}
+    if am or seed % 3 == 0:
+        kw["allow_missing_values"] = bool(am)
+    if ae or seed % 3 == 1:
+        kw["allow_extra_values"] = bool(ae)
+    return kw
 
 
 def _from_excel(cls, definition, dim_files, prm_files, dim_sheets, prm_sheets, seed, kwf):
